@@ -15,3 +15,11 @@ VARIANTS = [
     M('C13', 'backslash-not-special-in-bracket', E(RX, "    specials = r']\\-^'", "    specials = ']^-'"), rule='C13-BRACKET', key='escaped_bracket'),
     M('C13', 'refactor-quantifier-arms', E(RX, "        elif m == M == 1:\n            part = regex\n", "        elif m == 1 and M == 1:\n            part = regex\n"), kind='refactor'),
 ]
+
+VARIANTS += [
+    M('C13', 'ties-broken-by-rendered-text', E(RX, "            deletions = set(list(sorted(range(len(freqs)),\n                                        key=lambda k: -freqs[k]))[M:])",
+                                               "            _, order = terminate_patterns_and_sort(self.results.rex)\n            deletions = set(sorted(order, key=lambda k: -freqs[k])[M:])"),
+      rule='C13-TAGFREE', key='find_bad_patterns'),
+    M('C13', 'refactor-deletions-without-list', E(RX, "            deletions = set(list(sorted(range(len(freqs)),\n                                        key=lambda k: -freqs[k]))[M:])",
+                                                  "            ranked = sorted(range(len(freqs)), key=lambda k: -freqs[k])\n            deletions = set(ranked[M:])"), kind='refactor'),
+]
